@@ -33,6 +33,17 @@ pub struct Sched {
     pub slept: bool,
     /// a shim condvar wait was entered during the concurrent phase
     pub cv_entered: bool,
+    /// forced-site mode (0 = off): the operations of the other actor run at the k-th eligible site
+    /// of the outer actor and nowhere else; the first `force_min` of them always, the rest (up to
+    /// per_site) if the solver says so.  The harness loops over k, so the *site* is a loop variable
+    /// (a conjunction over all sites) instead of a solver choice: an operation that allocates or
+    /// changes the handle structure then runs at a concrete place and heap-object identities stay
+    /// concrete (DESIGN.md 4.2)
+    pub force_site: u16,
+    pub force_min: u8,
+    /// which actor (scenario choice, >= 1) runs as the n-th operation at the forced site
+    pub force_seq: [u8; 4],
+    pub site_no: u16,
     /// shim operations the outer operation has executed since the last injection
     pub idle_steps: u32,
     /// (waiting scenarios) the outer operation may take this many steps without anybody else
@@ -55,6 +66,10 @@ pub static mut SCHED: Sched = Sched {
     cv_waits: 0,
     slept: false,
     cv_entered: false,
+    force_site: 0,
+    force_min: 0,
+    force_seq: [1; 4],
+    site_no: 0,
     idle_steps: 0,
     idle_limit: 0,
 };
@@ -97,6 +112,18 @@ pub fn configure(max_depth: u8, budget: u8, kinds: u16, per_site: u8) {
     s.cv_entered = false;
     s.idle_steps = 0;
     s.idle_limit = 0;
+    s.force_site = 0;
+    s.force_min = 0;
+    s.site_no = 0;
+}
+
+/// forced-site mode, see `Sched::force_site`
+pub fn force(site: u16, min_ops: u8, seq: [u8; 4]) {
+    let s = st();
+    s.force_site = site;
+    s.force_min = min_ops;
+    s.force_seq = seq;
+    s.site_no = 0;
 }
 
 pub fn enable() {
@@ -194,12 +221,30 @@ pub fn point_impl<Sc: Scenario>(kind: u8, _addr: usize) {
     if (s.kinds >> kind) & 1 == 0 {
         return;
     }
+    let forced = s.force_site != 0;
+    if forced {
+        if s.depth != 0 {
+            return;
+        }
+        s.site_no += 1;
+        if s.site_no != s.force_site {
+            return;
+        }
+    }
     let mut n = 0;
     while n < s.per_site {
         if s.budget == 0 {
             return;
         }
-        let c: u8 = kani::any();
+        let c: u8 = if forced {
+            if n < s.force_min || kani::any() {
+                s.force_seq[(n & 3) as usize]
+            } else {
+                0
+            }
+        } else {
+            kani::any()
+        };
         if c == 0 {
             return;
         }
